@@ -25,6 +25,18 @@ CHECKS = {
  "C17": ("seqmc", "bounded-exhaustive enumeration of malformed inputs x configurations vs. reference error fields",
          "All class strings and structured/defect families (every defect kind at every record index, every offset of the defect relative to the buffer end through all capacities) checked against reference error kind, line, found byte, lengths, id and message content.",
          "Tolerant corners of DESIGN.md 4.2 (several broken rules, id optional).", "6 C17"),
+ "C04": ("seqmc", "explicit-state BFS over call histories of the real reader (state caching on a snapshot hook), to fixpoint per scenario",
+         "All reachable (reader state, model state) pairs under the alphabet {next, owned next, set into A/B, exact(1..3), seek first/last} for every scenario (input of the record-shape family x capacity x chunking); every transition checked against a reference stream + cursor; BFS runs to fixpoint, i.e. all finite histories over the alphabet, not a depth bound.",
+         "State key abstraction (DESIGN.md 4.4) cross-checked by an uncached pass over short histories; exact(n) for n>3 and seeks to non-record positions are outside the alphabet.", "6 C04"),
+ "C05": ("seqmc", "input x configuration sweep (positions) + explicit-state BFS with seek edges from every reachable state to every record",
+         "(a) position() after every record for every enumerated input, capacity, chunking; (b) BFS to fixpoint with seek(record i) for every i (and the invalid FASTQ record) from every reachable state, both seek paths (in-buffer / source) exercised and counted.",
+         "Same as C04.", "6 C05"),
+ "C06": ("seqmc", "explicit-state BFS continued past errors with refusing policies and a source fault at every call index",
+         "All reachable states in the post-error / post-end regime for three scenario groups: refusing and +1 policies, one injected source error at every source call index, and every class string up to length 5 (thorough 7) with a short alphabet; oracle: no panic, no hang (per-call budget), only genuine records, in order.",
+         "Hangs that never call the source are caught by a watchdog (exit 2) rather than reported as a violation.", "6 C06"),
+ "C14": ("seqmc", "exhaustive fault enumeration (failure of the k-th source call for every k x 4 error kinds) inside explicit-state BFS",
+         "For every scenario (input x capacity x chunking) and every k up to the number of source calls of a full read + 3: BFS over {next, set, exact(2), seek 0, seek 1} with the k-th source call failing once with each of 4 kinds; the failing API call must return Io of that kind. Interrupted before every read and before every <=2-subset of the first 6 reads must be invisible to the strict reference oracle.",
+         "Exploration stops at the failing call; later behaviour is C06's.", "6 C14"),
 }
 
 NOT_YET = {}
